@@ -384,3 +384,30 @@ package main
 //@   props C07
 //@   panics may
 //@   ensures root-scope-only: sclen(ps.scope) <= 1
+
+// ---------------------------------------------------------------------------------------------
+// C09: a default-less union match is accepted exactly when it covers every case.
+// uniinfo / has_uniinfo: abstract view of the global union-info table (read once by exaustiveCheck).
+// ---------------------------------------------------------------------------------------------
+
+//@ func lookupUniInfo
+//@   trusted
+//@   panics iff !has_uniinfo(ut)
+//@   returns uniinfo(ut)
+//@   note abstract: reads the global union-info dictionary; "Can't find union info" is a panic
+
+//@ func exaustiveCheck
+//@   props C09 C05
+//@   modifies maps
+//@   ghost D0 map[string]bool   -- domain of the case map before marking
+//@   ghost V0 map[string]bool   -- its values before marking
+//@   panics iff is(FType_FUnion, ttype) && (!has_uniinfo(FType_FUnion_Value(ttype)) || (exists i int :: 0 <= i && i < len(uniinfo(FType_FUnion_Value(ttype)).Cases) && (forall j int :: 0 <= j && j < len(ucases) ==> ucases[j].UnionPattern.CaseId != uniinfo(FType_FUnion_Value(ttype)).Cases[i].Name)))
+//@   inline-call slice.Fold#0
+//@   at before call slice.Fold#0: D0 = domof(cmap.Fdict)
+//@   at before call slice.Fold#0: V0 = valof(cmap.Fdict)
+//@   loop slice.Fold#0/0 index i:
+//@     invariant same: stat == iniS && iniS.Fdict != 0
+//@     invariant marked: forall j int :: 0 <= j && j < i ==> has(iniS.Fdict, ss[j]) && iniS.Fdict[ss[j]]
+//@     invariant kept: forall k string :: D0[k] ==> has(iniS.Fdict, k)
+//@     invariant false-is-old: forall k string :: has(iniS.Fdict, k) && !iniS.Fdict[k] ==> D0[k] && !V0[k] && (forall j int :: 0 <= j && j < i ==> ss[j] != k)
+//@     invariant old-false-stays: forall k string :: D0[k] && !V0[k] && (forall j int :: 0 <= j && j < i ==> ss[j] != k) ==> !iniS.Fdict[k]
